@@ -146,7 +146,9 @@ theorem ctrlInit_shape (w : World) (o : Order) (conn port cp : String) (v : Opti
   unfold ctrlInit
   split
   · exact ⟨rfl, Or.inl rfl⟩
-  · exact ⟨rfl, Or.inr ⟨_, rfl, rfl⟩⟩
+  · split
+    · exact ⟨rfl, Or.inl rfl⟩
+    · exact ⟨rfl, Or.inr ⟨_, rfl, rfl⟩⟩
 
 theorem register_shape (w : World) (owner conn : String) (v : Option (Option Metadata)) (o : Order) :
     let w' := (register w owner conn v o).1
